@@ -1,11 +1,11 @@
 #!/bin/bash
 # confirm a seeded change in its scratch worktree: patch == worktree diff, builds, 38 tests pass,
 # demo differs between changed and original tree.  usage: confirm_seed.sh C06 [extra link flags]
-id=$1; d=/tmp/seed/$id; J=${J:-8}
+id=$1; base=${SEEDBASE:-/tmp/seed}; d=$base/$id; J=${J:-8}
 set -o pipefail
 cd $d || exit 2
-git -C $d diff -- src > /tmp/seed/$id.actual.diff
-if ! diff -q /tmp/seed/$id.actual.diff $d/seed/patch.diff >/dev/null; then echo "NOTE: patch.diff differs from worktree diff; using the worktree diff"; cp /tmp/seed/$id.actual.diff $d/seed/patch.diff; fi
+git -C $d diff -- src > $base/$id.actual.diff
+if ! diff -q $base/$id.actual.diff $d/seed/patch.diff >/dev/null; then echo "NOTE: patch.diff differs from worktree diff; using the worktree diff"; cp $base/$id.actual.diff $d/seed/patch.diff; fi
 echo "== build + test changed tree"
 rm -rf $d/_b $d/_b0
 cmake -G Ninja -S $d -B $d/_b >/dev/null && cmake --build $d/_b -j$J >/dev/null 2>$d/seed/build_changed.err || { echo BUILD-FAILED; tail -5 $d/seed/build_changed.err; exit 1; }
